@@ -25,7 +25,7 @@ for pid in ALL:
 na = [{"property_id": p, "reason": NOT_APPLICABLE[p]} for p in ALL if p not in CHECKS]
 m = {
     "version": 1,
-    "setup_cmd": "python3 vlib/build.py jaqmon release cli",
+    "setup_cmd": "python3 vlib/build.py jaqmon release cli cli_release && python3 -c \"from vlib import build; build.jaqmon('release', features=('sync',))\" && python3 -m vlib.c19_build tsan miri",
     "hooks": {
         "guard": "--cfg jaq_verif",
         "enable": "RUSTFLAGS='--cfg jaq_verif' (set by vlib/build.py for every build of /repo's crates); no source hook is needed so far: all observations are taken at the client API, process, system-call and allocator boundaries",
